@@ -126,7 +126,9 @@ func dosFamilies(thorough bool) []dosFamily {
 			}
 			return mk(""), mk(" + n")
 		}},
-		{"nested-loops-starting-at-doubled-outer-variable", pick([]int{12, 20, 28}, []int{12, 20, 28, 48}), func(n int) (string, string) {
+		// 80 / 100: well deeper than MaxLoopAnalysisDepth (64), where a walk that stops at the limit and one
+		// that does not would disagree about which variables were size-checked
+		{"nested-loops-starting-at-doubled-outer-variable", pick([]int{12, 28, 80}, []int{12, 28, 48, 80, 100}), func(n int) (string, string) {
 			// every loop starts at i+i of the enclosing loop's variable: the closed form of level k
 			// mentions the closed form of level k-1 twice
 			mk := func(extra string) string {
